@@ -53,6 +53,8 @@ def strategy(tier):
         condim_menu=st.sampled_from([[3], [1, 3, 4, 6], [1], [6]]),
         p_multi_joint=st.sampled_from([0.0, 0.4]),
         maxdepth=st.integers(0, 3),
+        p_weld=st.sampled_from([0.1, 0.1, 0.5]),  # 0.5: chains of jointless bodies below a jointed one (points on bodies several weld levels deep)
+        mocap=st.integers(0, 1),
       ),
       opt=gen.option_strategy(integrators=("Euler", "implicitfast"), jacobians=("both",)),
       nworld=st.integers(1, 2),
